@@ -6,7 +6,7 @@ inductive Outcome (α : Type) where
   | ok (a : α)
   | err (msg : String)
   | panic
-  deriving Repr, Inhabited
+  deriving Repr, Inhabited, DecidableEq
 
 namespace Str
 
